@@ -83,7 +83,11 @@ def handle (line : String) : String :=
         if mode == "rekey" then
           match judgeSamples m (toTypes sc) (toTypes ss) (i.str "samples") with
           | some e => e
-          | none => "ok"
+          | none =>
+            -- getSessionID: equal on both sides and unchanged by re-keys (it is the first exchange hash)
+            if i.str "sid" != "11" then s!"session id not stable/equal across re-keys: {i.str "sid"}"
+            else if i.str "sidlen" == "0" then "empty session id"
+            else "ok"
         else "ok"
       | some e, _ => e
       | _, some e => e
